@@ -527,7 +527,30 @@ class Function:
         if k == "un":
             return n.get("op", "?") + self.shape(n["e"], depth)
         if k == "cond":
-            return "(" + self.shape(n.get("c"), depth) + "?" + self.shape(n.get("t"), depth) + ":" + self.shape(n.get("f"), depth) + ")"
+            # canonical ternary: condition normalised to one of ==, <, <= (operands / arms swapped as needed), `!c` unwrapped,
+            # so that `a != b ? x : y`, `!(a == b) ? x : y` and `a == b ? y : x` have one shape
+            c = strip_casts(self.resolve_x(n.get("c"))) if n.get("c") is not None else None
+            t, f = n.get("t"), n.get("f")
+            while c is not None and c.get("k") == "un" and c.get("op") == "!" and "v" not in c:
+                c = strip_casts(self.resolve_x(c["e"]))
+                t, f = f, t
+            if c is not None and c.get("k") == "bin" and "v" not in c and c.get("op") in ("!=", ">=", ">", "<", "<=", "=="):
+                op, l, r = c["op"], c["lhs"], c["rhs"]
+                if op == "!=":
+                    op, t, f = "==", f, t
+                elif op == ">=":            # a >= b ? t : f  ==  a < b ? f : t
+                    op, t, f = "<", f, t
+                elif op == ">":             # a > b ? t : f   ==  b < a ? t : f
+                    op, l, r = "<", r, l
+                if op == "<=":              # a <= b ? t : f  ==  b < a ? f : t
+                    op, l, r, t, f = "<", r, l, f, t
+                a, b = self.shape(l, depth), self.shape(r, depth)
+                if op == "==":
+                    a, b = sorted((a, b))
+                cs = "(" + a + op + b + ")"
+            else:
+                cs = self.shape(c, depth) if c is not None else "?"
+            return "(" + cs + "?" + self.shape(t, depth) + ":" + self.shape(f, depth) + ")"
         if k == "sizeof":
             return "sizeof"
         return k or "?"
